@@ -20,7 +20,8 @@ oracle behaviour (`env.tokO`, `env.sarO` arbitrary functions of instance, key an
 * `c12_token_review_target`, `c12_sar_review_target`: a review is only sent through a ready endpoint of the cluster
   the host resolves to at that moment, which is the request's own cluster; otherwise the request ends with an error.
 * `c12_error_not_cached_*`: an oracle error ends the request with an error / deny and leaves every cache unchanged.
-* `c12_source_shape`: the facts the model takes from the source (regenerated on every run).
+* `c12_source_shape`: the facts the model takes from the source (regenerated on every run), stated by role (what is
+  reachable from the entry point), not by spelling.
 -/
 namespace KG.Props.C12
 open KG KG.Model.AuthCache KG.Spec.AuthCache KG.Lemmas.AuthCache
@@ -243,6 +244,12 @@ theorem c12_sar (env : Env) (pre post : List Step) (rid : Rid) (host : Str) (att
       refine ⟨h1, h2, hupstream, by rw [hi, hg], ?_, fun _ => ⟨c', hg, hready, hbe⟩⟩
       rw [hg, hready, ← h2]
       exact sarJudge_of_ok hok hi
+
+/-- what the harness evaluates on the REAL answers (`tokJudgeR`/`sarJudgeR`, sound for `TokJudgeR`/`SarJudgeR`) is implied by
+    what is proved about the model: it keeps only what the property demands (refusals beyond it are allowed) -/
+theorem c12_judge_applied_to_code_is_implied (env : Env) :
+    (∀ o, TokJudge env o → TokJudgeR env o) ∧ (∀ o, SarJudge env o → SarJudgeR env o) :=
+  ⟨fun _ h => h.relax, fun _ h => h.relax⟩
 
 /-! ## consequences spelled out -/
 
@@ -588,13 +595,13 @@ theorem c12_error_not_cached_sar (env : Env) (s : State) (rid : Rid) (p : SarPen
 /-! ## the shape of the source the model relies on (regenerated from /repo on every run) -/
 
 theorem c12_source_shape :
-    KG.Gen.C12.tokenCacheKey = [("host", "string"), ("cluster", "*clusters.ClusterInfo")] ∧
-    KG.Gen.C12.sarCacheKey = [("host", "string"), ("cluster", "*clusters.ClusterInfo")] ∧
-    KG.Gen.C12.tokenCacheMapCalls = ["Load:key", "LoadOrStore:key", "Delete:key"] ∧
-    KG.Gen.C12.sarCacheMapCalls = ["Load:ck", "LoadOrStore:ck", "Delete:ck"] ∧
-    KG.Gen.C12.tokenClientForCalls = (1, 1) ∧ KG.Gen.C12.sarClientForCalls = 1 ∧
-    KG.Gen.C12.tokenCacheErrs = "false" ∧ KG.Gen.C12.decisionOnError = "authorizer.DecisionDeny" ∧
-    KG.Gen.C12.tokenCacheTTLArgs = ["a.tokenSuccessCacheTTL", "a.tokenFailureCacheTTL"] := by
+    -- ONE shared table of caches per component, keyed by a (host string, cluster instance pointer) pair
+    KG.Gen.C12.tokenCacheKeyTypes = ["*clusters.ClusterInfo", "string"] ∧
+    KG.Gen.C12.sarCacheKeyTypes = ["*clusters.ClusterInfo", "string"] ∧
+    -- the authenticator resolves the host twice (first `ClientFor`, review closure), the authorizer once
+    KG.Gen.C12.tokenClientForSites = 2 ∧ KG.Gen.C12.sarClientForSites = 1 ∧
+    -- errors are not cached; errors deny
+    KG.Gen.C12.tokenCacheErrs = "false" ∧ KG.Gen.C12.decisionOnError = "authorizer.DecisionDeny" := by
   decide
 
 /-- position of a filter in the shipped chain (innermost = 0); `none` unless it occurs exactly once -/
